@@ -26,7 +26,7 @@ var run *vk.Run
 
 func TestMain(m *testing.M) {
 	run = vk.Start("C03", "exploration")
-	run.Rule("cache states are produced by driving the real dhcp.Server (loader holding kernel maps of the loaded working-tree object) through seeded DISCOVER/REQUEST/RELEASE/DECLINE/expiry histories from direct and relayed (option 82) clients; after every step the kernel maps are copied into the natively compiled XDP program and every client is probed with DISCOVER and REQUEST frames (untagged, 802.1Q, QinQ, option 53 at several offsets, relayed, broadcast flag, ciaddr, IHL 5-8, several lengths, kernel clock values); a transmitted reply is parsed by an independent parser and compared field by field with the userspace server's reply to the same client at that moment; a passed frame must be byte-identical; a client whose lease was released, declined or expired+cleaned must not be answered. non-trivial = distinct (pool configuration, client identity, probe shape) on which the fast path transmitted a reply")
+	run.Rule("cache states are produced by driving the real dhcp.Server (loader holding kernel maps of the loaded working-tree object) through seeded DISCOVER/REQUEST/RELEASE/DECLINE/expiry histories from direct and relayed (option 82) clients; server_config and ip_pools are written only by the code under test: dhcp.Server.Start (real listener and interface lookup, on an interface with and one without a hardware address in turn) and PoolManager.AddPool/RemovePool, including calls that are refused (id taken, id unknown) or concern other pools, before and between the client exchanges, with the userspace reference re-read after each such call; after every step the kernel maps are copied into the natively compiled XDP program and every client is probed with DISCOVER and REQUEST frames (untagged, 802.1Q, QinQ, option 53 at several offsets, relayed, broadcast flag, ciaddr, IHL 5-8, several lengths, kernel clock values); a transmitted reply is parsed by an independent parser and compared field by field with the userspace server's reply to the same client at that moment; a passed frame must be byte-identical; a client whose lease was released, declined or expired+cleaned must not be answered. non-trivial = distinct (pool configuration, client identity, probe shape) on which the fast path transmitted a reply")
 	run.Assume("the fast path is not required to answer, only to answer correctly when it does and never for a client without a current binding; the reference values are those of the userspace OFFER/ACK for the same client in the same state; the in-kernel run cross-checks the native run on clock-independent probes")
 	code := m.Run()
 	ec := run.Finish()
